@@ -36,11 +36,15 @@ from fractions import Fraction as Fr
 
 import numpy as np
 
+import c16_src
 from common import Ctx, Finding, Outcome, err_class
 
 PROPERTY = "C16"
 LEAN_TARGETS = ["QcelVerif.Props.C16", "QcelVerif.Lemmas.OrientUnique", "QcelVerif.Props.C16Unique", "QcelVerif.Props.C16Masses",
-                "QcelVerif.Model.OrientApprox", "QcelVerif.Lemmas.OrientApprox", "QcelVerif.Props.C16Approx", "QcelVerif.Driver.C16"]
+                "QcelVerif.Model.OrientApprox", "QcelVerif.Lemmas.OrientApprox", "QcelVerif.Props.C16Approx", "QcelVerif.Driver.C16",
+                "QcelVerif.Model.OrientAst", "QcelVerif.Model.OrientSrc", "QcelVerif.Props.C16Src"]
+# molecule.py (_orient_molecule_internal, _inertial_tensor, GEOMETRY_NOISE) -> lean/QcelVerif/Gen/OrientSrc.lean, by `ast`, on every run
+TRANSLATORS = [c16_src.translate]
 DRIVER = "QcelVerif/Driver/C16.lean"
 N = "QcelVerif.Orient."
 THEOREMS = [
@@ -95,10 +99,42 @@ THEOREMS = [
     (N + "eigframe_unique_approx", "QUANTITATIVE eigen-frame uniqueness (3x3, explicit constants): as above with moments separated by gamma > 0 (|l_i - l'_j| >= gamma, i /= j) -> signs d_i in {1,-1} with max|V' - V diag(d)| <= frameBound(e1, delta/gamma) = (1+e1)(kappa + 2 eta + 3 e1), eta = delta/gamma, kappa = e1 + 3 e1 (1+e1) + 2 eta^2: O(eps/gap); equals 0 for exact certificates"),
     (N + "second_pass_frame_approx_partial", "PARTIAL (frame level): out oriented with residuals (ea, eb, e2); ANY approximate eigen-frame (V2,l2) of the tensor of out with tolerances (e1, E2 >= B_diag), moments separated from l by gamma -> V2 = diag(+-1) within frameBound(e1, overlapDelta(e1,E2,tau,0)/gamma); geometry-level idempotence up to a bound additionally needs stable phase decisions (not proved)"),
     (N + "eigframe_rigid_approx_partial", "PARTIAL (frame level): y = xR + t, R exactly orthogonal; approximate eigen-frames (V,l) for x and (V',l') for y, gap gamma -> max|R V' - V diag(d)| <= frameBound(3 e1, overlapDelta(3 e1, e2, tau, 0)/gamma); equality of the two oriented geometries up to a bound additionally needs stable phase decisions (not proved)"),
+    (N + "src_inertia_eq", "[regenerated from molecule.py] the body of _inertial_tensor as read from the source (np.zeros, the six assignments, np.sum, weight, geom[:, j] ** 2.0, -1.0 *) evaluates to Model/Orient.lean's inertia, entry by entry, for ALL weights and geometries over any ordered field"),
+    (N + "src_centre_eq", "[regenerated] the vector `new_geometry -= np.average(new_geometry, axis=0, weights=np_mass)` subtracts equals the model's com, with np.average's two refusals (length mismatch -> Shape, weights summing to zero -> ZeroDivision), for all inputs"),
+    (N + "src_centred_eq", "[regenerated] the centred geometry of the source = center ms xs (same refusals)"),
+    (N + "src_tensorStage_eq", "[regenerated] the tensor the source hands to np.linalg.eigh (centring, then _inertial_tensor(new_geometry, weight=np_mass)) = orientTensor ms xs, for all inputs"),
+    (N + "src_rot_eq", "[regenerated] `new_geometry = np.dot(new_geometry, evecs)` evaluated as a general 2-d array product with shape check and conversion back to (n,3) rows = rotate g V, for ALL geometries and ALL eigh outputs V"),
+    (N + "body_step", "[regenerated] one pass of the inner-loop body as written in the source (flag test, read new_geometry[num, x], `abs(val) < geom_noise`, set flag, `val < 0` -> in-place `new_geometry[:, x] *= -1`) on the in-place array state = one colStep of the hand model's sign-tracking state on that column"),
+    (N + "src_phase_eq", "[regenerated] the whole phase loop of the source with its in-place semantics (for num in range(n): for x in range(3): body; optional `if sum(phase_check) == 3: break`) returns exactly phase noise g, for every threshold, every geometry, with or without the break; no IndexError arises"),
+    (N + "src_break_irrelevant", "[regenerated] the `break` of the source only skips iterations that change nothing: with and without it the source-derived loop returns the same geometry"),
+    (N + "src_afterEigh_eq", "[regenerated] everything after the eigh call as read from the source (centring, rotation, phase loop, geom_noise = 10 ** (-GEOMETRY_NOISE)) = orientCore at that threshold: for ALL masses, ALL geometries and ALL eigh outputs, errors included"),
+    (N + "srcNoise_eq", "[regenerated] geom_noise of the source = 1/100000000, the threshold the driver runs the hand model at"),
+    (N + "ratOps_eq", "the Mathlib-free rational operations record the driver evaluates the regenerated code with equals the generic field record at Q (so the driver's source-derived column is the object of these theorems)"),
+    (N + "driver_src_eq_model", "three-way, proved side: the four source-derived functions the driver compares per call (centring vector, tensor handed to eigh, rotated geometry, returned geometry) and geom_noise equal the hand model's for ALL rational inputs"),
+    (N + "src_com_origin", "headline restated over the source-derived functions: on success the centring vector the SOURCE computes for its own returned geometry is (0,0,0) (any V, total mass /= 0)"),
+    (N + "src_isometry", "headline restated: V Vt = 1 -> the source-derived returned geometry is the image of the input under one map preserving every squared distance"),
+    (N + "src_isometry_get", "headline restated, indexed: distSq out[i] out[j] = distSq xs[i] xs[j] for all atoms i, j of the source-derived output"),
+    (N + "src_inertia_diagonal", "headline restated (source-derived on both sides): T = tensor the source hands to eigh, Orth V, Vt T V = diag l -> the source's _inertial_tensor of the source's returned geometry is exactly diag l; with l ascending the moments ascend"),
+    (N + "src_phase_convention", "headline restated: in each column of the source-derived returned geometry every entry before the first off-plane one is within geom_noise and that first off-plane entry is >= geom_noise > 0"),
+    (N + "src_idempotent", "headline restated (exact arithmetic): exact certificates for the tensors the source hands to eigh for xs and for its own output, distinct moments, an off-plane atom in every column -> the source-derived function returns its output unchanged"),
+    (N + "src_rigid_invariant", "headline restated (exact arithmetic): y = xR + t, R orthogonal, ANY exact certificates for the source's tensors of x and y, distinct moments, off-plane atoms -> the source-derived function returns the same geometry for both"),
+    (N + "src_prep_eq", "[regenerated from molecule.py] float_prep's array branch as read from the source (array = np.around(array, around) taken as rint(v 10^d)/10^d with ties to even; array[np.abs(array) < 5 ** (-(around + 1))] = 0) = floatPrepK d v / 10^d of the hand model, for every d and every value, over any floor ring field"),
+    (N + "driver_prep_eq", "three-way, proved side, rounding: the source-derived float_prep entry the driver evaluates at Q (Mathlib-free rint over core Rat) equals the hand model's floatPrepK d v / 10^d for all d, v"),
+    (N + "src_inputs_only", "the source-derived function is a function of (masses, geometry, evecs) only and agrees with the geometry field of the hand-modelled wrapper orientMol; the wrapper itself (Molecule(orient=True, **dict), float_prep) stays hand-modelled"),
 ]
 TRUSTED_BASE = [
     "Lean 4.33 kernel + Mathlib (ring/linear_combination/order lemmas); axioms per theorem audited on every run",
-    "hand-written model Model/Orient.lean of molecule.py:1074-1152, 381-384, 564-568, 60-68, tied by differential correspondence on every captured eigh call",
+    "hand-written model Model/Orient.lean of molecule.py:1074-1152, 381-384, 564-568, 60-68, tied by differential correspondence on every captured eigh call. "
+    "Since C16c its core is no longer trusted as a transcription: orientCore / orientTensor / com / inertia / rotate / phase are PROVED equal (Props/C16Src.lean, all inputs, all eigh outputs) to the "
+    "code regenerated from molecule.py on every run (Gen/OrientSrc.lean). float_prep's array branch (np.around + zero band, with strictness and fill value) is regenerated and proved equal to floatPrepK too (src_prep_eq), and the translator demands "
+    "`values['geometry'] = float_prep(self._orient_molecule_internal(), geometry_noise)` with `geometry_noise = kwargs.pop('geometry_noise', GEOMETRY_NOISE)` in the validator. Still hand-modelled and tied only "
+    "differentially: the wrapper (Molecule(orient=True, **self.dict()), orient_molecule, from_data) and that nothing but `geometry` is assigned there (oracle: fields)",
+    "translator harness/c16_src.py (Python `ast`): locates Molecule._orient_molecule_internal, Molecule._inertial_tensor and GEOMETRY_NOISE by name, demands the exact statement sequence and variable names "
+    "(copy, np.array(self.masses), `new_geometry -= np.average(...)`, tensor call, eigh, `new_geometry = <dot/T expression>`, flags, geom_noise, the two loops, return) and re-expresses the variable parts as a term of "
+    "Model/OrientAst.lean (centring: weighted or not; every tensor assignment with its expression tree; the rotation expression; the loop body statement by statement with comparison operators, index order, "
+    "axis and factor of the in-place multiplication; presence of the break); anything else raises. TRUSTED: Python's ast, the translator's reading of each construct, and the numpy MEANING the evaluator of "
+    "Model/OrientAst.lean gives them (elementwise * + ** over equal-length arrays, np.sum, np.average = sum(w x)/sum(w) with ZeroDivisionError, np.dot = row-by-column products with inner-dimension check, "
+    "2-d indexing [i, j], in-place `[:, j] *= c`, range loops with continue/break, np.around(a, d) = rint(a 10^d)/10^d with ties to even, boolean-mask assignment); np.linalg.eigh is an opaque step whose second output is an input of everything after it",
     "numpy.linalg.eigh is NOT trusted: its output is certified per call (VtV, VVt, VtTV, order) exactly in rationals by the driver. The theorems of Props/C16.lean, C16Unique.lean assume the exact versions "
     "of the certified relations; those of Props/C16Approx.lean assume only the certified residual bounds themselves (distances: isometry_approx; inertia tensor / moments: inertia_diagonal_driver; "
     "eigen-frame uniqueness: eigframe_unique_approx) and the driver prints the resulting bounds B_off, B_diag per call (Model/OrientApprox.lean inertiaBounds, evaluated in exact rationals)",
@@ -118,6 +154,9 @@ ASSUMPTIONS = [
     "rigid-invariance / idempotence statements (they need the phase decisions to be stable under the O(eps/gap) perturbation; the harness checks that per case with a first-order bound) and anything about "
     "floating-point arithmetic of the implementation, which stays covered by the correspondence tolerances only",
     "uniqueness claims (rigid copies, double orientation) are demanded for asymmetric tops with relative gaps between consecutive moments >= 1e-3; eigen-frame uniqueness is proved (eigframe_unique / eigvals_unique) for EXACT certificates with pairwise distinct moments and used in orient_rigid_invariant / orient_idempotent; the quantitative (perturbation) version for the ~1e-15 certified residuals is proved at the level of frames (eigframe_unique_approx: max|V' - V diag(+-1)| <= frameBound(e1, delta/gap)) - for the residuals seen in practice (e1 ~ 2e-15, e2 ~ 1.5e-15 scale, tau <= scale) and the relative gap >= 1e-3 demanded here that bound is ~1e-10 per frame entry - but is not yet propagated to the oriented coordinates, so the oracle's rigid-copy / idempotence tolerances (perturb_bounds: first order, factor 2) remain harness-derived",
+    "source-derived evaluator (Model/OrientAst.lean): arrays of one call have equal lengths where numpy would demand it (weights vs rows are checked by the centring step exactly like np.average; "
+    "elementwise products inside _inertial_tensor truncate to the shorter operand, unreachable after that check); tensor / column indices are the literals 0, 1, 2 (the translator rejects others); "
+    "a read or in-place multiplication outside the array is an IndexError result, never a default",
     "'within the geometry rounding' = float_prep as implemented: rounding to 1e-8 and flushing |x| < 5^-9 = 5.12e-7 to zero",
     "call sequences: orientation is taken to be a function of the molecule it is applied to - every call in a sequence of related molecules made in one process must "
     "satisfy the property with that molecule's own masses, coordinates and fields; the caller's arguments, the unoriented molecule and molecules returned earlier must "
@@ -151,7 +190,9 @@ RULE = (
     "diagonal ascending inertia, fields, sign convention (deciders from the geometry_noise=14 call on the same input), arguments / unoriented molecule / earlier results "
     "unmodified, repeated orientation of bit-identical input equal (asymmetric tops). Distinct by (shape, n, set of variations, number of calls). "
     "Every model line additionally carries the proved bounds (S, B_off, B_diag) of that call; for every validated call the exact inertia tensor of the implementation's output is compared with them "
-    "(off-diagonal <= B_off + rounding term; consecutive moments descend by at most 2 B_diag + rounding terms; moments within B_diag + rounding term of the eigenvalues eigh returned)."
+    "(off-diagonal <= B_off + rounding term; consecutive moments descend by at most 2 B_diag + rounding terms; moments within B_diag + rounding term of the eigenvalues eigh returned). "
+    "THREE-WAY: every model line also carries the exact comparison of the code regenerated from molecule.py on this run (centring vector, tensor handed to eigh, rotated geometry, returned geometry, geom_noise) "
+    "with the hand model; any difference is a broken tie (mismatch:source_vs_model) naming the stage, and says which of the two the implementation's rounded output agrees with."
 )
 LEVEL_TEXT = (
     "proof (partial): centring, isometry, tensor transformation law, diagonal tensor with the certified eigenvalues as moments, the exact "
@@ -163,9 +204,13 @@ LEVEL_TEXT = (
     "and eigen-frame uniqueness up to signs within O(residual/gap) (frame level only: propagation to the oriented coordinates through the phase loop is not proved); "
     "floating point is tied by tolerance-based correspondence, not proved. That the result depends on nothing but the molecule is "
     "true of the model by construction (a pure function; orient_com_other_masses says when a frame computed for other masses would still pass); of the implementation "
-    "it is only TESTED, on sampled call sequences within one process."
+    "it is only TESTED, on sampled call sequences within one process. "
+    "REGENERATED FROM SOURCE (C16c): the bodies of _orient_molecule_internal and _inertial_tensor are re-read from molecule.py by `ast` on every run, emitted as an array-statement AST and evaluated over any ordered field "
+    "with the source's in-place semantics; centre of mass, tensor handed to eigh, rotated frame, phase-fixed returned geometry are proved equal to the hand model for all inputs and all eigh outputs, and the headline theorems "
+    "(centre of mass at the origin, diagonal ascending inertia under the certified relations, sign convention, idempotence, distances, rigid copies) are restated over the source-derived functions; the driver compares "
+    "implementation, hand model and source-derived evaluation on every captured call. float_prep's array branch is regenerated and proved equal to the hand model's rounding as well. Not regenerated: the Molecule wrapper / entry points (hand model + oracle on fields), numpy's floating-point arithmetic (tolerances)."
 )
-TECHNIQUE = "Lean 4 proof over generic fields + per-call eigen-frame certificate + exact-rational differential correspondence + Python oracle"
+TECHNIQUE = "Lean 4 proof over generic fields + source-to-AST translator with proved equality to the hand model + per-call eigen-frame certificate + exact-rational three-way differential correspondence + Python oracle"
 
 _CERT = {"orth": 0.0, "diag_rel": 0.0}
 # proved-bound oracle (Props/C16Approx.lean: inertia_diagonal_driver): largest observed |quantity| / tolerance, and the size of the proved bound
@@ -566,6 +611,10 @@ def base_claims(tag, m, G, out, d):
     returns list of (clause, message)"""
     bad = []
     n = len(m)
+    G, out = np.asarray(G), np.asarray(out)
+    if G.shape != (n, 3) or out.shape != (n, 3):
+        # (a result of the wrong shape handed back in as an input lands here too)
+        return [("fields", f"{tag}: geometry is not an (n, 3) array of the molecule's {n} atoms: input {G.shape}, oriented {out.shape}")]
     M = m.sum()
     c = (m[:, None] * G).sum(0) / M
     # floating-point allowance: 4e-15 * (1 + size of the numbers the implementation had to work with), i.e. of the input
@@ -752,11 +801,32 @@ def tie_call(tag, d, masses, gin, call, out_geom, line):
     """compare one model line with the implementation; returns (list of (kind, message), knife: bool)"""
     T, w, V = call
     bad = []
+    if np.asarray(gin).shape != (len(masses), 3) or np.asarray(out_geom).shape != (len(masses), 3):
+        return [("mismatch:geometry", f"{tag}: geometry handed to / returned by the orientation is not an (n, 3) array of the {len(masses)} atoms: "
+                 f"input {np.asarray(gin).shape}, output {np.asarray(out_geom).shape}")], False
     if line.startswith("err") or line == "bad-op":
         return [("mismatch", f"{tag}: model says {line!r}, implementation returned a geometry")], False
     parts = line.split("|")
-    if len(parts) != 7 or parts[0] != "ok":
+    if len(parts) != 8 or parts[0] != "ok" or not parts[7].startswith("src "):
         return [("mismatch", f"{tag}: unparsable model line {line[:80]!r}")], False
+    # three-way: the code regenerated from molecule.py on this run (Gen/OrientSrc.lean, evaluated exactly at Q) against the hand model
+    src_head, _, src_extra = parts[7].partition(";")
+    src_flags = src_head.split()[1:]
+    if len(src_flags) != 6 or any(f not in ("0", "1") for f in src_flags):
+        return [("mismatch", f"{tag}: unparsable source-derived field {parts[7][:80]!r}")], False
+    if src_flags != ["1"] * 6:
+        stages = [nm for nm, f in zip(("centring vector", "tensor handed to eigh", "rotated geometry", "returned geometry", "geom_noise", "float_prep of the returned geometry"), src_flags) if f == "0"]
+        agree = ""
+        if src_flags[3] == "0" and d == 8:
+            try:
+                Ks = [int(x) for x in src_extra.split()] if not src_extra.startswith("err") else None
+                Km = [int(x) for x in parts[1].split()]
+                impl = [int(round(float(v) * 1e8)) for v in np.asarray(out_geom, dtype=float).ravel()]
+                agree = "; implementation's rounded output equals: hand model %s, source-derived %s" % (
+                    impl == Km, (impl == Ks) if Ks is not None else "n/a (source-derived evaluation raises %s)" % src_extra)
+            except Exception:  # noqa
+                agree = ""
+        bad.append(("mismatch:source_vs_model", f"{tag}: code regenerated from molecule.py differs from the hand model in: {', '.join(stages)}{agree}"))
     K = [int(x) for x in parts[1].split()]
     Y = [int(x) for x in parts[2].split()]
     S = parts[3].split()
@@ -896,6 +966,13 @@ def run_case(ctx, out: Outcome, case, use_model=True):
             OF = np.array(molF.geometry, dtype=float)
     except Exception as e:
         V("oracle:raises", f"orientation of a validated molecule raised {type(e).__name__}: {e}")
+        out.violations += findings_v
+        return
+    # an oriented geometry is an (n, 3) array of the SAME atoms (every clause below compares atom by atom)
+    for tg_, X_, Gi_ in (("primary", O, gin), ("hires", H, gin), ("second", O2, O), ("rigid", OR, ginr), ("far", OF, ginf)):
+        if X_ is not None and X_.shape != np.asarray(Gi_).shape:
+            V("oracle:fields", f"{tg_}: shape of geometry changed by orientation: {np.asarray(Gi_).shape} -> {X_.shape}")
+    if findings_v:
         out.violations += findings_v
         return
 
@@ -1471,6 +1548,8 @@ def run_family(ctx, out: Outcome, case, use_model=True):
     # sign convention and equality of repeated orientations, per (member, input seen by the orientation)
     groups = {}
     for si, rec in results.items():
+        if rec["O"].ndim != 2 or rec["O"].shape[1] != 3 or rec["O"].shape != np.asarray(rec["gin"]).shape:
+            continue  # already reported as oracle:fields (shape of geometry changed); the per-column clauses below need (n, 3) arrays
         if rec["path"] != "again":
             groups.setdefault((rec["m"], rec["gin"].tobytes()), []).append(si)
     for (mi, _), sis in groups.items():
